@@ -39,6 +39,15 @@ def build_cases(tier_, rnd):
                 for errno in ((13, 24, 11) if tier_ == "quick" else (4, 5, 11, 12, 13, 23, 24)):
                     cases.append(dict(id="flt|%s|%s|%d|%d" % (sc["name"], fname, i, errno), tree=sc["tree"], feat=feat, trace=True, raw=True, calls=sc["calls"][:3],
                                       faults=[dict(call=rnd.randrange(min(3, len(sc["calls"]))), i=i, errno=errno)], meta=dict(scenario="fault-" + sc["name"], feat=fname)))
+    # EAGAIN answers of the procfs-relative openat2 calls of reopen / procfs operations (a rename or mount elsewhere on the
+    # machine): whatever the library does about them must keep the discipline
+    for sc in scenarios.scenarios():
+        if not sc["name"].startswith(("reopen-", "proc-")):
+            continue
+        for j in range(len(sc["calls"])):
+            for n in (1, 3):
+                cases.append(dict(id="eagain-proc|%s|%d|%d" % (sc["name"], j, n), tree=sc["tree"], feat={"openat2": True}, trace=True, raw=True, calls=sc["calls"],
+                                  faults=[dict(call=j, nr="openat2", errno=11, count=n, cls="proc")], meta=dict(scenario="eagain-proc-" + sc["name"], feat="kernel")))
     return cases
 
 
